@@ -10,9 +10,34 @@ use serde_json::{json, Value};
 use std::collections::{BTreeSet, HashMap};
 use unic_locale::{LanguageIdentifier, Locale};
 
-pub const RULE: &str = "Domain: (a) every locale name under unic-langid-impl/data/cldr-misc-full/main (about 710, exhaustive), bare, with 1-2 variants added and as the id of a Locale with extensions; (b) (language, script, region) triples over every subtag of likelySubtags.json plus the scripts and languages of the layout data plus absent / unknown representatives - quick: all one- and two-component combinations, full triples of the richest languages and a proptest sample; thorough: the whole universe; (c) proptest-generated locales (G2) whose id is asked with and without its variants. All of it in two builds of the harness: likelysubtags on and off. Oracle: a model read at run time from the layout.json files (script -> direction from the names that carry a script, languages that occur right-to-left, languages that occur with two directions). Feature on: direction == characterOrder for every CLDR locale. Feature off: a mismatch is tolerated only for a script-less identifier whose language CLDR lists with two directions. Both: a listed script decides alone; script absent or unlisted and language never right-to-left in CLDR => LTR; variants and extensions never change the answer. Non-trivial = language occurs right-to-left in CLDR or the script is listed (counted once, for the feature-on build; the feature-off build's counts are reported separately). Distinct by construction / hash set.";
+pub const RULE: &str = "Domain: (a) every locale name under unic-langid-impl/data/cldr-misc-full/main (about 710, exhaustive), bare, with 1-2 variants added and as the id of a Locale with extensions; (b) (language, script, region) triples over every subtag of likelySubtags.json plus the scripts and languages of the layout data plus absent / unknown representatives - quick: all one- and two-component combinations, full triples of the richest languages and a proptest sample; thorough: the whole universe; (c) proptest-generated locales (G2) whose id is asked with and without its variants. All of it in four builds of the harness: likelysubtags on through both facade crates (main), on through unic-locale's feature only, on through unic-langid's feature only, and off; in the main build every direction query of a CLDR locale is repeated after maximize()/minimize() calls on other identifiers of the same language (hidden state). Oracle: a model read at run time from the layout.json files (script -> direction from the names that carry a script, languages that occur right-to-left, languages that occur with two directions). Feature on: direction == characterOrder for every CLDR locale. Feature off: a mismatch is tolerated only for a script-less identifier whose language CLDR lists with two directions. Both: a listed script decides alone; script absent or unlisted and language never right-to-left in CLDR => LTR; variants and extensions never change the answer. Non-trivial = language occurs right-to-left in CLDR or the script is listed (counted once, for the feature-on build; the feature-off build's counts are reported separately). Distinct by construction / hash set.";
 
-pub const ON: bool = cfg!(feature = "likely");
+pub const ON: bool = cfg!(any(feature = "likely", feature = "likely_via_locale", feature = "likely_via_langid"));
+pub const CONFIG: &str = if cfg!(feature = "likely") {
+    "likelysubtags on (both facade crates)"
+} else if cfg!(feature = "likely_via_locale") {
+    "likelysubtags on (unic-locale's feature only)"
+} else if cfg!(feature = "likely_via_langid") {
+    "likelysubtags on (unic-langid's feature only)"
+} else {
+    "likelysubtags off"
+};
+
+/// maximize / minimize calls on identifiers of the same language with every listed script,
+/// made on this thread right before a direction query: the answer must not depend on them
+#[cfg(feature = "likely")]
+fn prior_calls(lang: &str, layout: &Layout) {
+    for s in layout.script_dir.keys() {
+        for r in ["", "-PK", "-ML", "-001"] {
+            if let Ok(mut li) = format!("{lang}-{s}{r}").parse::<LanguageIdentifier>() {
+                li.maximize();
+                li.minimize();
+            }
+        }
+    }
+}
+#[cfg(not(feature = "likely"))]
+fn prior_calls(_lang: &str, _layout: &Layout) {}
 
 fn dir_of(li: &LanguageIdentifier) -> Dir {
     match li.character_direction() {
@@ -59,7 +84,7 @@ impl Ctx {
 }
 
 fn name_case(name: &str) -> Value {
-    json!({"kind": "cldr-locale", "name": name, "likelysubtags": ON})
+    json!({"kind": "cldr-locale", "name": name, "likelysubtags": ON, "config": CONFIG})
 }
 
 pub fn check_name(c: &Ctx, name: &str, want: Dir, st: &mut Stats) {
@@ -67,13 +92,22 @@ pub fn check_name(c: &Ctx, name: &str, want: Dir, st: &mut Stats) {
     let case = || name_case(name);
     let r = guard(|| {
         let li: LanguageIdentifier = name.parse().map_err(|e| format!("{e:?}"))?;
+        let first = dir_of(&li);
+        prior_calls(li.language.as_str(), &c.layout);
         let d = dir_of(&li);
+        if d != first {
+            return Err(format!("HISTORY {first:?} {d:?}"));
+        }
         let with_var: LanguageIdentifier = format!("{name}-1abc-zzzzz").parse().map_err(|e| format!("{e:?}"))?;
         let loc: Locale = format!("{name}-u-ca-islamic-t-ar-h0-hybrid-x-rtl").parse().map_err(|e| format!("{e:?}"))?;
         Ok::<_, String>((li, d, dir_of(&with_var), dir_of(&loc.id)))
     });
     let (li, d, dv, dl) = match r {
         Ok(Ok(x)) => x,
+        Ok(Err(e)) if e.starts_with("HISTORY") => {
+            st.fail("direction-depends-on-earlier-calls", case(), name.len(), format!("{name}: character_direction() before / after maximize() and minimize() calls on other identifiers of the same language: {}", &e[8..]));
+            return;
+        }
         Ok(Err(e)) => {
             st.oracle_error(format!("CLDR locale name {name} does not parse: {e}"));
             return;
@@ -89,7 +123,7 @@ pub fn check_name(c: &Ctx, name: &str, want: Dir, st: &mut Stats) {
         if tolerated {
             st.class("cldr-locale: mismatch tolerated (feature off, script-less, language with two directions)");
         } else {
-            st.fail(format!("cldr-locale-mismatch:{}", if ON { "feature-on" } else { "feature-off" }), case(), name.len(), format!("{name}: character_direction() = {d:?}, CLDR characterOrder = {want:?}"));
+            st.fail(format!("cldr-locale-mismatch:{}", if ON { "feature-on" } else { "feature-off" }), case(), name.len(), format!("{name}: character_direction() = {d:?}, CLDR characterOrder = {want:?} [{CONFIG}]"));
         }
     } else {
         st.class("cldr-locale: agrees");
@@ -98,13 +132,14 @@ pub fn check_name(c: &Ctx, name: &str, want: Dir, st: &mut Stats) {
         st.fail("variants-or-extensions-matter", case(), name.len(), format!("{name}: {d:?}, with variants {dv:?}, as Locale.id with extensions {dl:?}"));
     }
     if c.rtl_langs.contains(&lang) || li.script.map_or(false, |s| c.script_by_name.contains_key(s.as_str())) {
-        st.count(if ON { Count::Enum } else { Count::No }, hash_str(name), case);
+        st.count(if cfg!(feature = "likely") { Count::Enum } else { Count::No }, hash_str(name), case);
     }
 }
 
 fn triple_case(c: &Ctx, t: Triple) -> Value {
     let mut v = c.h.case(t);
     v["likelysubtags"] = json!(ON);
+    v["config"] = json!(CONFIG);
     v
 }
 
@@ -149,7 +184,7 @@ pub fn check_triple(c: &Ctx, t: Triple, st: &mut Stats, mode: Count) {
         st.fail("variants-matter", case(), 3, format!("{shown}: {d:?}, with variants {dv:?}"));
     }
     if listed.is_some() || rtl_lang {
-        st.count(if ON { mode } else { Count::No }, hash_triple(t), case);
+        st.count(if cfg!(feature = "likely") { mode } else { Count::No }, hash_triple(t), case);
     }
 }
 
@@ -159,7 +194,8 @@ pub fn check_ast(c: &Ctx, a: &gen::Ast, st: &mut Stats) {
     let case = || {
         let mut v = bytes_case(&b);
         v["likelysubtags"] = json!(ON);
-        if !ON {
+        v["config"] = json!(CONFIG);
+        if !cfg!(feature = "likely") {
             // not minimised by the parent (each evaluation would need a child process)
             v["kind"] = json!("bytes-off");
         }
@@ -186,7 +222,7 @@ pub fn check_ast(c: &Ctx, a: &gen::Ast, st: &mut Stats) {
                     if d != *want {
                         st.fail(format!("listed-script-does-not-decide:{want:?}"), case(), b.len(), format!("{loc}: {d:?}"));
                     }
-                    st.count(if ON { Count::Hash } else { Count::No }, hash_bytes(&b), case);
+                    st.count(if cfg!(feature = "likely") { Count::Hash } else { Count::No }, hash_bytes(&b), case);
                 }
             }
         }
@@ -207,7 +243,7 @@ pub fn run_config(cfg: &Cfg) -> Stats {
     let names = &c.layout.locales;
     let s = par_range(names.len() as u64, |i, st| check_name(&c, &names[i as usize].0, names[i as usize].1, st));
     total = total.merge(s);
-    total.subspace(&format!("every CLDR layout locale ({}), likelysubtags {}", names.len(), if ON { "on" } else { "off" }), names.len() as u64, true);
+    total.subspace(&format!("every CLDR layout locale ({}), {CONFIG}", names.len()), names.len() as u64, true);
     total = total.merge(sweep(cfg, &c.h, "c14", &|t, st, mode| check_triple(&c, t, st, mode)));
     let n = cfg.pick(100_000, 2_000_000);
     // G2 ids with scripts drawn from the listed ones half of the time
@@ -240,8 +276,8 @@ pub fn child_mode(cfg: &Cfg) -> i32 {
     0
 }
 
-fn other_build(cfg: &Cfg) -> Result<Stats, String> {
-    let bin = std::env::var("VERIF_BIN_NOLIKELY").map_err(|_| "VERIF_BIN_NOLIKELY is not set (the build without likelysubtags is needed)".to_string())?;
+fn other_build(cfg: &Cfg, var: &str) -> Result<Stats, String> {
+    let bin = std::env::var(var).map_err(|_| format!("{var} is not set (the other feature builds of the harness are needed)"))?;
     let out = std::process::Command::new(&bin)
         .args(["C14", "--config-child", cfg.tier_name()])
         .env("VERIF_SEED", (cfg.seed as i64).to_string())
@@ -253,37 +289,49 @@ fn other_build(cfg: &Cfg) -> Result<Stats, String> {
     Ok(crate::props::c01::stats_from_json(&v, &[]))
 }
 
+pub const OTHER_BUILDS: &[(&str, &str)] = &[("VERIF_BIN_NOLIKELY", "feature-off"), ("VERIF_BIN_VIALOCALE", "on-via-unic-locale"), ("VERIF_BIN_VIALANGID", "on-via-unic-langid")];
+
 pub fn run(cfg: &Cfg) -> Stats {
     let mut total = run_config(cfg);
-    if !ON {
+    if !cfg!(feature = "likely") {
         total.oracle_error("the main harness binary must be built with likelysubtags".into());
         return total;
     }
-    match other_build(cfg) {
-        Err(e) => total.oracle_error(e),
-        Ok(mut o) => {
-            // the other build's cases are the same inputs under another configuration: its
-            // evaluations, classes and failures are merged, its non-trivial counts only reported
-            let nt = o.nt_enum;
-            o.nt_enum = 0;
-            o.samples.clear();
-            let classes = std::mem::take(&mut o.classes);
-            for (k, v) in classes {
-                o.classes.insert(format!("feature-off: {k}"), v);
+    let mut report = vec![];
+    for (var, label) in OTHER_BUILDS {
+        match other_build(cfg, var) {
+            Err(e) => total.oracle_error(e),
+            Ok(mut o) => {
+                // the other build's cases are the same inputs under another configuration: its
+                // evaluations, classes and failures are merged, its non-trivial counts only reported
+                let nt = o.nt_enum;
+                o.nt_enum = 0;
+                o.samples.clear();
+                let classes = std::mem::take(&mut o.classes);
+                for (k, v) in classes {
+                    o.classes.insert(format!("{label}: {k}"), v);
+                }
+                report.push(json!({"build": label, "evaluations": o.evals, "nontrivial_counted_separately": nt}));
+                total = total.merge(o);
             }
-            let evals = o.evals;
-            total = total.merge(o);
-            total.extra.insert("feature_off_build".into(), json!({"evaluations": evals, "nontrivial_counted_separately": nt}));
         }
     }
+    total.extra.insert("other_builds".into(), json!(report));
     total
 }
 
 pub fn replay(case: &Value, st: &mut Stats) {
-    let want_on = case["likelysubtags"].as_bool().unwrap_or(true);
-    if want_on != ON {
-        // the case belongs to the other build
-        if let Ok(bin) = std::env::var("VERIF_BIN_NOLIKELY") {
+    let want_cfg = case["config"].as_str().unwrap_or(CONFIG).to_string();
+    if want_cfg != CONFIG {
+        // the case belongs to another build
+        let var = if want_cfg.contains("unic-locale's") {
+            "VERIF_BIN_VIALOCALE"
+        } else if want_cfg.contains("unic-langid's") {
+            "VERIF_BIN_VIALANGID"
+        } else {
+            "VERIF_BIN_NOLIKELY"
+        };
+        if let Ok(bin) = std::env::var(var) {
             let tmp = std::env::temp_dir().join(format!("c14-replay-{}.json", std::process::id()));
             let _ = std::fs::write(&tmp, json!({"case": case}).to_string());
             if let Ok(out) = std::process::Command::new(bin).args(["C14", "--replay", &tmp.display().to_string()]).output() {
